@@ -73,6 +73,7 @@ TInit ==
             hated |-> ToSet(I0.hated), favs |-> ToSet(I0.favs), autoJoin |-> I0.autoJoin,
             invites |-> I0.invites, reconnect |-> I0.reconnect, shares |-> I0.shares]
   /\ plan = [burst |-> <<>>, exp |-> Expected(cfg), slow |-> I0.slowscan]
+  /\ parent = FALSE /\ lparent = FALSE
   /\ phase = "new" /\ spc = "none" /\ srv = "none" /\ reason = "none"
   /\ session = FALSE /\ lpc = "idle" /\ sent = {}
   /\ epi = [had |-> FALSE, n |-> 0]
@@ -227,7 +228,7 @@ TSdestroy ==
         /\ epi' = [epi EXCEPT !.n = @ + 1] /\ early' = early
      \/ /\ srv = "connected" /\ clsg /\ session
         /\ early' = early + 1 /\ epi' = epi
-  /\ UNCHANGED <<cfg, plan, phase, spc, srv, reason, session, lpc, sent, watchdog, losses, logins, cfails, lastExec,
+  /\ UNCHANGED <<cfg, plan, parent, lparent, phase, spc, srv, reason, session, lpc, sent, watchdog, losses, logins, cfails, lastExec,
                  ovars, wdDue, pend, lst, lmode, gotS, udc, clsg, xc>>
   /\ NotQ /\ Consume
 
@@ -254,8 +255,20 @@ TExec ==
   /\ IsEv("exec") /\ xc.on
   /\ lastExec' = [res |-> Rec.res, sess |-> xc.sess, arr |-> Rec.arr, clean |-> xc.clean]
   /\ xc' = [xc EXCEPT !.on = FALSE]
-  /\ UNCHANGED <<cfg, plan, phase, spc, srv, reason, session, lpc, sent, epi, watchdog, losses, logins, cfails,
+  /\ UNCHANGED <<cfg, plan, parent, lparent, phase, spc, srv, reason, session, lpc, sent, epi, watchdog, losses, logins, cfails,
                  ovars, wdDue, pend, lst, lmode, gotS, udc, clsg, early>>
+  /\ NotQ /\ Consume
+
+\* the harness saw the client take its scripted peer as parent / the link to that peer close
+TParentUp ==
+  /\ IsEv("parent_up") /\ ~parent /\ parent' = TRUE
+  /\ UNCHANGED <<cfg, plan, lparent, phase, spc, srv, reason, session, lpc, sent, epi, watchdog, losses, logins, cfails,
+                 lastExec, ovars, xvars>>
+  /\ NotQ /\ Consume
+TParentDown ==
+  /\ IsEv("parent_down") /\ parent' = FALSE
+  /\ UNCHANGED <<cfg, plan, lparent, phase, spc, srv, reason, session, lpc, sent, epi, watchdog, losses, logins, cfails,
+                 lastExec, ovars, xvars>>
   /\ NotQ /\ Consume
 
 TSpawn ==
@@ -316,7 +329,7 @@ TStep ==
   \/ TFrameAdvert \/ TFrameOther
   \/ TInject \/ TConnClosing \/ TConnClosed \/ TConnConnecting \/ TLinkServer \/ TConnConnected
   \/ TConnFailed \/ TConnClosedLate \/ TSdestroy \/ TLinkPeer
-  \/ TUserDiscCall \/ TUserDiscRet \/ TExecCall \/ TExec \/ TSpawn \/ TNote
+  \/ TUserDiscCall \/ TUserDiscRet \/ TExecCall \/ TExec \/ TParentUp \/ TParentDown \/ TSpawn \/ TNote
   \/ TStopCall \/ TStall \/ StopNetDoneSilent \/ StopServicesSilent \/ TStopRet \/ TQ
   \/ Done
 
@@ -329,8 +342,8 @@ TStep ==
 AtFirstQ == session /\ lpc = "idle" /\ srv = "connected"
 Of(S, k) == {f \in S : f[1] = k}
 AdvKind(k) == \/ k = "shares" /\ plan.slow      \* not judged while the start-up scan may be in flight
-              \/ /\ Of(sent, k) \subseteq Of(plan.exp, k)
-                 /\ AtFirstQ => Of(sent, k) = Of(plan.exp, k)
+              \/ /\ Of(sent, k) \subseteq Of(ExpNow, k)
+                 /\ AtFirstQ => Of(sent, k) = Of(ExpNow, k)
 Adv_listen  == AdvKind("listen")
 Adv_status  == AdvKind("status")
 Adv_shares  == AdvKind("shares")
